@@ -13,6 +13,12 @@ def R(name, props, *edits):
     REFACTORS.append({"name": name, "property": props, "edits": list(edits)})
 
 
+def RP(name, props, patch):
+    """a behaviour-preserving change kept as a patch file (written by an independent sub-agent, selftest/benign/)"""
+    REFACTORS.append({"name": name, "property": props, "edits": [], "patch": patch})
+
+
+ALL = ["all"]
 CTRL = "app/controller.go"
 
 # ------------------------------------------------------------------ C06
@@ -3038,3 +3044,12 @@ func moveCoin(balances *balance.Store, send *Send, coin balance.Coin) error {
 	return nil
 }"""),
   ("action/transfer/send.go", "import (\n", "import (\n\t\"github.com/Oneledger/protocol/data/balance\"\n", 1))
+
+# ------------------------------------------------------------------ behaviour-preserving changes written by independent
+# sub-agents (given only a property's text, asked for realistic maintenance commits in the anchored code that keep the
+# property true); every registered check must stay silent on each of them.
+import os as _os
+_bd = _os.path.join(_os.path.dirname(_os.path.abspath(__file__)), "benign")
+for _f in sorted(_os.listdir(_bd)) if _os.path.isdir(_bd) else []:
+    if _f.endswith(".diff"):
+        RP("benign-" + _f[:-5], ALL, "benign/" + _f)
